@@ -237,3 +237,10 @@ func NewReq(tid uint64, restart, pull bool, v *datatransfer.TypedVoucher) datatr
 
 // Root is the link of the fixed root CID.
 func Root() cidlink.Link { return cidlink.Link{Cid: doubles.Cid("root")} }
+
+// MarkStopped tells Stop that the manager is being stopped by an operation under test.
+func (n *Node) MarkStopped() {
+	n.mu.Lock()
+	n.stopped = true
+	n.mu.Unlock()
+}
